@@ -65,6 +65,13 @@ func genC15(t *rapid.T) *c15Scenario {
 		if rapid.IntRange(0, 2).Draw(t, "force_builtin") == 0 && !m.IsCTCP {
 			m.Verb = Q(rapid.SampledFrom([]string{"PING", "NICK", "433", "001", "CAP"}).Draw(t, "builtin_verb"))
 		}
+		if rapid.IntRange(0, 5).Draw(t, "many_tags") == 0 {
+			// nine or more tags (size classes of maps and pools differ from the usual one to three)
+			m.HasTags = true
+			for k := rapid.IntRange(9, 14).Draw(t, "ntags"); k > 0; k-- {
+				m.Tags = append(m.Tags, c01Tag{Key: Q(fmt.Sprintf("k%d", k)), Kind: 2, Value: Q(fmt.Sprintf("v%d", k))})
+			}
+		}
 		if rapid.IntRange(0, 7).Draw(t, "empty_tag_section") == 0 {
 			// "@ :src VERB ...": a tag section with no tags in it parses to an empty, non-nil tag map
 			m.HasTags, m.Tags = true, nil
@@ -85,6 +92,12 @@ func genC15(t *rapid.T) *c15Scenario {
 	}
 	nfg := rapid.IntRange(1, 4).Draw(t, "nfg")
 	nbg := rapid.IntRange(0, 3).Draw(t, "nbg")
+	if rapid.IntRange(0, 11).Draw(t, "crowd") == 0 {
+		// a crowd of handlers on one event (whatever pools or worker caps a dispatcher has, each still
+		// gets a line of its own)
+		nfg = rapid.SampledFrom([]int{64, 65, 66, 129, 200}).Draw(t, "crowd_fg")
+		nbg = rapid.SampledFrom([]int{0, 3, 65}).Draw(t, "crowd_bg")
+	}
 	for i := 0; i < nfg+nbg; i++ {
 		h := c15H{BG: i >= nfg, Scribble: rapid.Bool().Draw(t, "scribble"), Yields: rapid.SampledFrom([]int{0, 0, 1, 5, 50}).Draw(t, "yields")}
 		if sc.Recover {
@@ -285,6 +298,16 @@ func runC15(sc *c15Scenario) *Violation {
 	// pointer identity: no two invocations (same or different events) share storage
 	mu.Lock()
 	defer mu.Unlock()
+	// a handler may keep its line (queue it for a worker, say): what it kept stays what it was given
+	for _, r := range recs {
+		if sc.Handlers[r.h].Scribble || sc.Handlers[r.h].Panic || r.ev >= len(expects) {
+			continue // (a panicking handler's line is scribbled over by this scenario's own Recover callback)
+		}
+		if v := checkLineAgainst("C15", r.orig, expects[r.ev], fmt.Sprintf("event %d handler %d: the *Line it was given, looked at again after all later events", r.ev, r.h)); v != nil {
+			v.Msg += " - a line a handler kept was changed after the handler had returned"
+			return v
+		}
+	}
 	for i := 0; i < len(recs); i++ {
 		for j := i + 1; j < len(recs); j++ {
 			a, b := recs[i], recs[j]
